@@ -80,8 +80,9 @@ func BuildAgedConflict(t testing.TB, c AgedConflictCfg) *AgedConflict {
 		s.PriorAt = append(s.PriorAt, p.Height())
 	}
 	for p.Height()+1 < firstFresh {
-		if p.R.Intn(3) == 0 {
-			if p.AddBlock(p.GenTxs()...) == nil {
+		// (no governance here: the victim's signer must stay unblocked)
+		if tx := p.OpNeoTransfer(); tx != nil && p.R.Intn(3) == 0 {
+			if p.AddBlock(tx) == nil {
 				return s
 			}
 		} else if p.AddBlock() == nil {
